@@ -16,6 +16,7 @@ type Evaluator struct {
 	C    *Ctx
 	M    Model
 	memo map[int]uint64
+	fast *FastEval
 }
 
 func NewEvaluator(c *Ctx, m Model) *Evaluator {
@@ -46,6 +47,9 @@ func b2u(b bool) uint64 {
 func (e *Evaluator) Eval(t *Term) uint64 {
 	if t.Op == OConst {
 		return t.Val
+	}
+	if e.fast != nil {
+		return e.fast.Eval(t)
 	}
 	if v, ok := e.memo[t.ID]; ok {
 		return v
@@ -197,4 +201,64 @@ func ufKey(e *Evaluator, t *Term) string {
 		s += fmt.Sprintf(",%x", e.Eval(x))
 	}
 	return s
+}
+
+// FastEval is a reusable evaluator: the memo is an array indexed by term ID with epoch
+// stamps, so it can be reset in O(1) between assignments (used for brute-force
+// enumeration of small variable sets).
+type FastEval struct {
+	C     *Ctx
+	M     Model
+	vals  []uint64
+	stamp []uint32
+	epoch uint32
+}
+
+func NewFastEval(c *Ctx) *FastEval { return &FastEval{C: c, epoch: 1} }
+
+func (e *FastEval) Reset(m Model) {
+	e.M = m
+	e.epoch++
+	if e.epoch == 0 {
+		for k := range e.stamp {
+			e.stamp[k] = 0
+		}
+		e.epoch = 1
+	}
+}
+
+func (e *FastEval) grow(id int) {
+	if id < len(e.vals) {
+		return
+	}
+	n := id*2 + 64
+	nv := make([]uint64, n)
+	ns := make([]uint32, n)
+	copy(nv, e.vals)
+	copy(ns, e.stamp)
+	e.vals, e.stamp = nv, ns
+}
+
+// Set overrides the value of a variable term for the current epoch.
+func (e *FastEval) Set(v *Term, val uint64) {
+	e.grow(v.ID)
+	e.vals[v.ID] = val & mask(v.S.W)
+	e.stamp[v.ID] = e.epoch
+}
+
+func (e *FastEval) Eval(t *Term) uint64 {
+	if t.Op == OConst {
+		return t.Val
+	}
+	e.grow(t.ID)
+	if e.stamp[t.ID] == e.epoch {
+		return e.vals[t.ID]
+	}
+	// reuse the reference evaluator's semantics through a tiny adapter
+	ev := Evaluator{C: e.C, M: e.M, fast: e}
+	v := ev.eval1(t)
+	e.grow(t.ID)
+	e.vals[t.ID] = v
+	e.stamp[t.ID] = e.epoch
+	return v
 }
